@@ -154,6 +154,9 @@ find_entry(const ZixHash* const    hash,
   while (!is_empty(&hash->entries[i]) &&
          !is_match(hash, code, i, hash->equal_func, key)) {
     i = next_index(hash, i);
+    if (i == h) {
+      return hash->n_entries; // Entire table searched without a match
+    }
   }
 
   return i;
@@ -236,7 +239,8 @@ zix_hash_find(const ZixHash* const hash, const ZixHashKey* const key)
   const size_t      h       = fold_hash(h_nomod, hash->mask);
   const ZixHashIter i       = find_entry(hash, key, h, h_nomod);
 
-  return is_empty(&hash->entries[i]) ? hash->n_entries : i;
+  return (i == hash->n_entries || is_empty(&hash->entries[i])) ? hash->n_entries
+                                                             : i;
 }
 
 ZixHashRecord*
@@ -248,7 +252,9 @@ zix_hash_find_record(const ZixHash* const hash, const ZixHashKey* const key)
   const ZixHashCode h_nomod = hash->hash_func(key);
   const size_t      h       = fold_hash(h_nomod, hash->mask);
 
-  return hash->entries[find_entry(hash, key, h, h_nomod)].value;
+  const ZixHashIter i = find_entry(hash, key, h, h_nomod);
+
+  return (i == hash->n_entries) ? NULL : hash->entries[i].value;
 }
 
 ZixHashInsertPlan
